@@ -4,7 +4,7 @@ second check), record the outcome in seeded/<id>/check.json and print a table.
   seedmatrix.py [ids...]"""
 import json, os, subprocess, sys, time
 ROOT = "/verif/seeded"
-ALT = {"C09b-2": "C08"}   # written for C09, but what it needs is a thread interleaving: decided by C08's check
+ALT = {"C09b-2": "C08", "C09d-2": "C08", "C16d-2": "C08"}   # written for C09, but what it needs is a thread interleaving: decided by C08's check
 ids = sys.argv[1:] or sorted(d for d in os.listdir(ROOT) if os.path.isdir(os.path.join(ROOT, d)))
 for i in ids:
     prop = ALT.get(i, i[:3])
